@@ -89,10 +89,10 @@ func (prog *Progress) get(n datamodel.Node, p datamodel.Path, trackProgress bool
 	for i, seg := range segments {
 		// Check the budget!
 		if prog.Budget != nil {
-			prog.Budget.NodeBudget--
 			if prog.Budget.NodeBudget <= 0 {
 				return nil, &ErrBudgetExceeded{BudgetKind: "node", Path: prog.Path}
 			}
+			prog.Budget.NodeBudget--
 		}
 		// Traverse the segment.
 		switch n.Kind() {
